@@ -467,11 +467,23 @@ def requiredFeature (tb : Table) (scriptIndex : Nat) (langIndex : Option Nat) : 
       | none => none
       | some t => some (idx, t)
 
+-- src: ot_layout.rs::LayoutTableExt::find_language_feature (the loop `for i in 0..sys.feature_indices.len()`)
+/-- `feats` = tag of FeatureList record i; the list argument = the feature indices the language system lists that are
+    still to be visited. An index that points past the FeatureList (`self.features.get(index)` = `None`: a DANGLING
+    index, left behind by subsetters) fails the comparison `… == Some(feature_tag)` like a record with another tag does:
+    the loop GOES ON with the next listed index (HarfBuzz: `get_feature_tag` of such an index is `HB_TAG_NONE`). -/
+def findFeatureLoop (feats : List Tag) (ft : Tag) : List Nat → Option Nat
+  | [] => none
+  | index :: rest =>
+    match feats[index]? with
+    | some t => if t == ft then some index else findFeatureLoop feats ft rest
+    | none => findFeatureLoop feats ft rest
+
 -- src: ot_layout.rs::LayoutTableExt::find_language_feature
 def findLanguageFeature (tb : Table) (scriptIndex : Nat) (langIndex : Option Nat) (ft : Tag) : Option Nat :=
   match langSysOf tb scriptIndex langIndex with
   | none => none
-  | some sys => sys.features.find? (fun i => tb.features[i]? == some ft)
+  | some sys => findFeatureLoop tb.features ft sys.features
 
 structure Selection where
   found : Bool
